@@ -447,3 +447,98 @@ class SkipCastK(Kernel):
 
 
 KERNELS.append(SkipCastK())
+
+
+class SkipIdK(Kernel):
+    """discharges the contract of _skip_id that the pattern lemmas above use as an assumption"""
+    id = "C05.P.skip_id"
+    prop = "C05"
+    file = "einx/_src/tracer/optimizer/_util.py"
+    module = "einx._src.tracer.optimizer._util"
+    qual = "_skip_id"
+    describe = ("_skip_id(o) returns a value with the denotation AND the run-time effects (assertions, in-place updates) of o: it only looks through tracer.Cast nodes whose output is o itself "
+                "(the Cast law den(cast(v)) = den(v), eff(cast(v)) = eff(v) is the only law available); recursive calls are used under their own contract (partial correctness)")
+    shape = "leaf"  # leaf | pair
+
+    def setup(self, eng, bound=None):
+        Eff = z3.DeclareSort("Eff")
+        eff = self.eff = z3.Function("eff", Obj, Eff)
+        is_cast = uf("is_tracer.Cast", Obj, B)
+        a_in, a_out = uf("attr_input", Obj, Obj), uf("attr_output", Obj, Obj)
+        o = z3.Const("o", Obj)
+        # Cast law: the output of a cast node denotes what its input denotes, with the same effects
+        eng.axioms += [z3.ForAll([o], z3.Implies(is_cast(origin(o)), z3.And(den(a_out(origin(o))) == den(a_in(origin(o))), eff(a_out(origin(o))) == eff(a_in(origin(o))))))]
+        rec = z3.Function("skip_id_rec", Obj, Obj)
+        eng.axioms += [z3.ForAll([o], z3.And(den(rec(o)) == den(o), eff(rec(o)) == eff(o)))]  # induction hypothesis for the recursive calls
+        self.out = z3.Const("output", Obj)
+
+        def c_rec(e, p, av, kw):
+            if not isinstance(av[0], SObj):
+                raise OutOfSubset("recursive _skip_id on a non-opaque value")
+            return SObj(rec(av[0].t))
+
+        def c_flatten(e, p, av, kw):
+            # pytree.flatten of a leaf (neither list/tuple nor dict) yields the leaf itself
+            v = av[0]
+            if isinstance(v, SObj):
+                return STup([v])
+            raise OutOfSubset("pytree.flatten of a container")
+
+        def c_all(e, p, av, kw):
+            # pytree.all(lambda x, y: id(x) == id(y), a, b) with b a leaf: structure mismatch or leaf/leaf -> the predicate applied to (a, b) = identity of a and b
+            a, b = av[1], av[2]
+            if isinstance(a, SObj) and isinstance(b, SObj):
+                return SBool(a.t == b.t)
+            raise OutOfSubset("pytree.all on modelled containers")
+
+        eng.contracts.update({"_skip_id": SContract(c_rec, "_skip_id (recursive call under its own contract)"), "pytree.flatten": SContract(c_flatten, "pytree.flatten (leaf case)"),
+                              "pytree.all": SContract(c_all, "pytree.all with an identity predicate (leaf case)")})
+        leaf = z3.And(z3.Not(uf("is_tuple", Obj, B)(self.out)), z3.Not(uf("is_list", Obj, B)(self.out)), z3.Not(uf("is_dict", Obj, B)(self.out)))
+        return {"output": SObj(self.out), "_skip_id": eng.contracts["_skip_id"]}, [leaf], {}
+
+    def post(self, eng, out, p):
+        if isinstance(out, Raise):
+            eng.oblige(f"post:no {out.cls}", p, z3.BoolVal(False), "post")
+            return
+        if not isinstance(out, Return) or not isinstance(out.v, SObj):
+            eng.oblige("post:returns a tracer-level value", p, z3.BoolVal(False), "post")
+            return
+        eng.oblige("post:the result denotes the same value as the argument", p, den(out.v.t) == den(self.out), "post")
+        eng.oblige("post:the result carries the same run-time effects (assertions, in-place updates) as the argument", p, self.eff(out.v.t) == self.eff(self.out), "post")
+
+    def twin(self, tier):
+        """native: the real _skip_id on small chains of Cast / Assert / Call nodes: the result must be reachable from the argument through Cast nodes only"""
+        import einx._src.tracer as tracer
+        from einx._src.tracer.optimizer._util import _skip_id
+        P = tracer.signature.python
+        n, fails = 0, []
+        import itertools
+        for chain in itertools.product(["cast", "assert", "call", "getattr"], repeat=3):
+            n += 1
+            x0 = P.Value(None)
+            cur, allowed = x0, [x0]
+            nodes = [x0]
+            for kind in chain:
+                if kind == "cast":
+                    cur = tracer.cast(cur, lambda origin: P.Value(origin))
+                elif kind == "assert":
+                    cur = P.assert_(cur, P.Value(None), "msg")
+                elif kind == "call":
+                    cur = P.call(P.Value(None), [cur])
+                else:
+                    cur = P.getattr(cur, "shape")
+                nodes.append(cur)
+            r = _skip_id(cur)
+            # expected: walk back over the trailing run of Cast nodes
+            exp = cur
+            for kind in reversed(chain):
+                if kind == "cast":
+                    exp = exp.origin.input
+                else:
+                    break
+            if r is not exp:
+                fails.append({"detail": f"_skip_id on a chain {chain} (innermost first) returned the node {nodes.index(r) if r in nodes else '?'} steps in, expected to stop at the last non-Cast node ({nodes.index(exp)})"})
+        return n, fails[:3]
+
+
+KERNELS.append(SkipIdK())
